@@ -23,76 +23,53 @@ Print Assumptions C28_one_holder.
 
 (* ---------------------------------------------------------------- in-memory service *)
 
-(* PARTIAL (full statement refuted below): over all interleavings and every capacity,
-   as long as no command evicts an UNEXPIRED lock entry (third component of a run = the
-   keys of unexpired entries evicted): every believer is the holder, so no two owners
-   ever believe to hold the same key at the same time. *)
-Theorem C28_mutex_inmem_partial : forall cfg ops s b ev,
-  In (s, b, ev) (im_run cfg ops im_init no_belief) -> ev = [] ->
+(* FULL: over all interleavings of commands by any owners, EVERY shard capacity and
+   every eviction-victim choice: every owner that was told it holds k and whose recorded
+   TTL has not elapsed is the holder, so no two owners ever believe to hold the same key
+   at the same time.  (Before the repair "never evict a held lock" this was refuted by
+   filling a shard, DESIGN S7; loadOrStore now only evicts expired entries and lets the
+   shard grow when there is none.) *)
+Theorem C28_mutex_inmem : forall cfg ops s b,
+  In (s, b) (im_run cfg ops im_init no_belief) ->
   forall k o1 o2,
     (believerb b (im_now s) o1 k = true -> heldb (im_tbl s) (im_now s) k o1 = true) /\
     (believerb b (im_now s) o1 k = true -> believerb b (im_now s) o2 k = true -> o1 = o2).
-Proof.
-  intros cfg ops s b ev Hin Hev k o1 o2.
-  pose proof (im_run_inv cfg ops im_init no_belief s b ev (inv_init 0) Hin Hev) as Hi.
-  split.
-  - apply inv_believer_held. exact Hi.
-  - intros H1 H2. eapply heldb_unique; eapply inv_believer_held; eauto.
-Qed.
-Print Assumptions C28_mutex_inmem_partial.
+Proof. exact im_mutex. Qed.
+Print Assumptions C28_mutex_inmem.
 
-(* FULL for configurations that cannot overflow: if the shard capacity is at least the
-   number of distinct lock keys the owners ever use, no run evicts anything and the
-   property holds for every interleaving. *)
-Theorem C28_mutex_inmem_fits : forall cfg keyset ops s b ev,
-  (length keyset <= im_cap cfg)%nat ->
-  (forall p k, In p ops -> In k (op_keys p) -> In k keyset) ->
-  In (s, b, ev) (im_run cfg ops im_init no_belief) ->
-  ev = [] /\
-  forall k o1 o2,
-    (believerb b (im_now s) o1 k = true -> heldb (im_tbl s) (im_now s) k o1 = true) /\
-    (believerb b (im_now s) o1 k = true -> believerb b (im_now s) o2 k = true -> o1 = o2).
-Proof.
-  intros cfg keyset ops s b ev Hcap Hks Hin.
-  assert (Hev : ev = []).
-  { eapply (im_run_noev cfg keyset Hcap ops im_init no_belief s b ev); eauto. apply fits_nil. }
-  split; auto. eapply C28_mutex_inmem_partial; eauto.
-Qed.
-Print Assumptions C28_mutex_inmem_fits.
+(* FULL: a Lock by one owner never makes the unexpired lock of another owner disappear,
+   however full the shard is (any state, reachable or not) *)
+Theorem C28_lock_never_evicts_held : forall cfg s o d ks s' rs k1 o1,
+  In (s', rs) (im_step cfg s (OLock o d ks)) -> o1 <> o ->
+  heldb (im_tbl s) (im_now s) k1 o1 = true -> heldb (im_tbl s') (im_now s') k1 o1 = true.
+Proof. exact im_lock_keeps_foreign. Qed.
+Print Assumptions C28_lock_never_evicts_held.
 
-(* REFUTED for finite capacity (DESIGN S7, reproduced on the real code): capacity 1,
-   owner 1 locks key 0, owner 2 locks key 1 of the same shard (evicts the unexpired
-   entry of key 0), owner 2 locks key 0: both owners now believe to hold key 0. *)
+(* FULL: a Lock that answers true holds every key it was asked for, also when several
+   new keys of one call fall into one full shard (no self-eviction) *)
+Theorem C28_lock_true_holds_all : forall cfg s o d ks s' rs k,
+  In (s', rs) (im_step cfg s (OLock o d ks)) -> fst rs = true -> In k ks ->
+  heldb (im_tbl s') (im_now s') k o = true.
+Proof. exact im_lock_true_holds. Qed.
+Print Assumptions C28_lock_true_holds_all.
+
+(* the two former counterexamples, capacity 1 and one shard, now end well on every
+   outcome: owner 2 is refused key 0 while owner 1 holds it; Lock [0;1] holds both keys *)
 Definition s7_cfg := mkImCfg 1 (fun _ => 0) 0.
 Definition s7_ops := [OLock 1 10 [0]; OLock 2 10 [1]; OLock 2 10 [0]].
-Theorem C28_mutex_inmem_refuted : exists cfg ops x k o1 o2,
-  (1 <= im_cap cfg)%nat /\ In x (im_run cfg ops im_init no_belief) /\ o1 <> o2 /\
-  believerb (snd (fst x)) (im_now (fst (fst x))) o1 k = true /\
-  believerb (snd (fst x)) (im_now (fst (fst x))) o2 k = true /\
-  heldb (im_tbl (fst (fst x))) (im_now (fst (fst x))) k o1 = false.
-Proof.
-  exists s7_cfg, s7_ops, (nth 0 (im_run s7_cfg s7_ops im_init no_belief) (im_init, no_belief, [])), 0, 1, 2.
-  split; [cbn; lia|]. split; [apply nth_In; vm_compute; lia|].
-  split; [discriminate|]. repeat split; vm_compute; reflexivity.
-Qed.
-Print Assumptions C28_mutex_inmem_refuted.
-
-(* the same defect inside ONE call: Lock(o, [k0;k1]) answers true although inserting k1
-   evicted the k0 entry it had just stored *)
-Theorem C28_lock_self_eviction_refuted : exists cfg o d ks x k,
-  (1 <= im_cap cfg)%nat /\ In x (im_step cfg im_init (OLock o d ks)) /\ In k ks /\
-  fst (snd (fst x)) = true /\ heldb (im_tbl (fst (fst x))) (im_now (fst (fst x))) k o = false.
-Proof.
-  exists s7_cfg, 1, 10, [0; 1], (nth 0 (im_step s7_cfg im_init (OLock 1 10 [0; 1])) (im_init, (false, None), [])), 0.
-  split; [cbn; lia|]. split; [apply nth_In; vm_compute; lia|].
-  split; [cbn; auto|]. split; vm_compute; reflexivity.
-Qed.
-Print Assumptions C28_lock_self_eviction_refuted.
+Example C28_former_counterexamples :
+  forallb (fun x : imrun => believerb (snd x) (im_now (fst x)) 1 0 && negb (believerb (snd x) (im_now (fst x)) 2 0)
+                            && heldb (im_tbl (fst x)) (im_now (fst x)) 0 1 && heldb (im_tbl (fst x)) (im_now (fst x)) 1 2)
+          (im_run s7_cfg s7_ops im_init no_belief) = true /\
+  length (im_run s7_cfg s7_ops im_init no_belief) = 1%nat /\
+  forallb (fun x : imstate * resp => fst (snd x) && heldb (im_tbl (fst x)) 0 0 1 && heldb (im_tbl (fst x)) 0 1 1)
+          (im_step s7_cfg im_init (OLock 1 10 [0; 1])) = true.
+Proof. repeat split; vm_compute; reflexivity. Qed.
 
 (* FULL: Unlock by anyone but the holder never frees the holder's lock — any state
    (reachable or not), any capacity, any key set *)
-Theorem C28_release_inmem : forall cfg s o' ks k o s' rs ev,
-  In (s', rs, ev) (im_step cfg s (OUnlock o' ks)) -> o' <> o ->
+Theorem C28_release_inmem : forall cfg s o' ks k o s' rs,
+  In (s', rs) (im_step cfg s (OUnlock o' ks)) -> o' <> o ->
   heldb (im_tbl s) (im_now s) k o = true -> heldb (im_tbl s') (im_now s') k o = true.
 Proof. exact im_unlock_foreign. Qed.
 Print Assumptions C28_release_inmem.
@@ -205,15 +182,18 @@ Proof. reflexivity. Qed.
 
 (* ---------------------------------------------------------------- non-vacuity *)
 
-(* a hazard-free in-memory run in which owner 1 believes and holds, owner 2 was refused *)
+(* an in-memory run over a FULL shard (capacity 2, three keys): owner 1 believes and holds,
+   owner 2 was refused key 1 and then took key 2, which made the shard grow to 3 entries *)
 Example C28_inmem_nonvacuous :
   let cfg := mkImCfg 2 (fun _ => 0) 0 in
-  let ops := [OLock 1 5 [0; 1]; OTick 5; OLock 2 5 [1]; OUnlock 2 [1]] in
-  let x := nth 0 (im_run cfg ops im_init no_belief) (im_init, no_belief, [0]) in
-  In x (im_run cfg ops im_init no_belief) /\ snd x = [] /\
-  believerb (snd (fst x)) (im_now (fst (fst x))) 1 1 = true /\
-  believerb (snd (fst x)) (im_now (fst (fst x))) 2 1 = false /\
-  heldb (im_tbl (fst (fst x))) (im_now (fst (fst x))) 1 1 = true.
+  let ops := [OLock 1 5 [0; 1]; OTick 5; OLock 2 5 [1]; OUnlock 2 [1]; OLock 2 5 [2]] in
+  let x := nth 0 (im_run cfg ops im_init no_belief) (im_init, no_belief) in
+  In x (im_run cfg ops im_init no_belief) /\
+  believerb (snd x) (im_now (fst x)) 1 1 = true /\
+  believerb (snd x) (im_now (fst x)) 2 1 = false /\
+  believerb (snd x) (im_now (fst x)) 2 2 = true /\
+  heldb (im_tbl (fst x)) (im_now (fst x)) 1 1 = true /\
+  length (im_tbl (fst x)) = 3%nat.
 Proof. cbv zeta. split; [apply nth_In; vm_compute; lia|]. repeat split; vm_compute; reflexivity. Qed.
 
 Example C28_redis_nonvacuous :
@@ -225,15 +205,21 @@ Example C28_redis_nonvacuous :
 Proof. cbv zeta. repeat split; vm_compute; reflexivity. Qed.
 
 (* the correspondence checker is not vacuous: it accepts what the model does and rejects a
-   wrong answer, a wrong table, a wrong expiry, a wrong flag and an impossible eviction victim *)
+   wrong answer, a wrong table, a wrong expiry, a wrong flag and the eviction of a held lock *)
 Example C28_checker_discriminates :
   c28_check (RdScript [RS (OLock 1 5 [0]) true 0 [0;1;1;5] [1;0]]) = true /\
   c28_check (RdScript [RS (OLock 1 5 [0]) false 0 [0;1;1;5] [1;0]]) = false /\
   c28_check (RdScript [RS (OLock 1 5 [0]) true 0 [] [1;0]]) = false /\
   c28_check (RdScript [RS (OLock 1 5 [0]) true 0 [0;1;1;6] [1;0]]) = false /\
   c28_check (RdScript [RS (OLock 1 5 [0]) true 0 [0;1;1;5] []]) = false /\
+  (* full shard of held locks: nothing is evicted, the shard grows *)
   c28_check (ImScript 2 [7;7;7] 0 [IS (OLock 1 9 [0]) true 0 [0;1;1;9]; IS (OLock 2 5 [1]) true 0 [0;1;1;9;1;2;1;5];
-                                   IS (OLock 3 7 [2]) true 0 [0;1;1;9;2;3;1;7]]) = true /\
+                                   IS (OLock 3 7 [2]) true 0 [0;1;1;9;1;2;1;5;2;3;1;7]]) = true /\
   c28_check (ImScript 2 [7;7;7] 0 [IS (OLock 1 9 [0]) true 0 [0;1;1;9]; IS (OLock 2 5 [1]) true 0 [0;1;1;9;1;2;1;5];
-                                   IS (OLock 3 7 [2]) true 0 [1;2;1;5;2;3;1;7]]) = false.
+                                   IS (OLock 3 7 [2]) true 0 [0;1;1;9;2;3;1;7]]) = false /\
+  (* full shard with an expired entry: that one is evicted, never the held one *)
+  c28_check (ImScript 2 [7;7;7] 0 [IS (OLock 1 2 [0]) true 0 [0;1;1;2]; IS (OLock 2 9 [1]) true 0 [0;1;1;2;1;2;1;9];
+                                   IS (OTick 3) true 0 [0;1;1;2;1;2;1;9]; IS (OLock 3 7 [2]) true 0 [1;2;1;9;2;3;1;10]]) = true /\
+  c28_check (ImScript 2 [7;7;7] 0 [IS (OLock 1 2 [0]) true 0 [0;1;1;2]; IS (OLock 2 9 [1]) true 0 [0;1;1;2;1;2;1;9];
+                                   IS (OTick 3) true 0 [0;1;1;2;1;2;1;9]; IS (OLock 3 7 [2]) true 0 [0;1;1;2;2;3;1;10]]) = false.
 Proof. repeat split; vm_compute; reflexivity. Qed.
